@@ -284,6 +284,56 @@ class Model:
                         ast.fix_missing_locations(m.tree)
                         self.heal_log.append(f"{m.relpath}:{k}: moved to {other.relpath} unchanged (normal forms equal); also analysed at its reviewed place")
                         break
+        # a top-level class moved to another module of the package (same name, every method equal in normal form, the other
+        # class-level statements equal): the reviewed module gets its definition back as well
+        def _classes(tree: ast.Module) -> Dict[str, ast.ClassDef]:
+            return {n.name: n for n in tree.body if isinstance(n, ast.ClassDef)}
+
+        def _non_methods(c: ast.ClassDef) -> List[str]:
+            out = []
+            for st in c.body:
+                if isinstance(st, (ast.FunctionDef, ast.AsyncFunctionDef)):
+                    continue
+                if isinstance(st, ast.Expr) and isinstance(st.value, ast.Constant) and isinstance(st.value.value, str):
+                    continue
+                out.append(ast.dump(st, annotate_fields=False, include_attributes=False))
+            return out
+
+        for m in changed:
+            ref_tree = reference_module(m.relpath)[1]
+            cur_cls, ref_cls = _classes(m.tree), _classes(ref_tree)
+            for k in [c for c in ref_cls if c not in cur_cls]:
+                for other in [self.modules[n_] for n_ in self._to_heal if n_ in self.modules]:
+                    if other is m:
+                        continue
+                    ocls = _classes(other.tree)
+                    oref = reference_module(other.relpath)  # None for the two data modules that have no reviewed copy
+                    if k not in ocls or (oref is not None and k in _classes(oref[1])):
+                        continue
+                    rm = {key: v for key, v in function_table(ref_tree).items() if key.startswith(k + ".") and "#" not in key}
+                    om = {key: v for key, v in function_table(other.tree).items() if key.startswith(k + ".") and "#" not in key}
+                    same = set(rm) == set(om) and _non_methods(ref_cls[k]) == _non_methods(ocls[k]) and [ast.dump(b) for b in ref_cls[k].bases] == [ast.dump(b) for b in ocls[k].bases]
+                    if same:
+                        for key in rm:
+                            try:
+                                if normal_form(om[key][0], Ctx({}, {}, k, set())) != normal_form(rm[key][0], Ctx({}, {}, k, set())):
+                                    same = False
+                                    break
+                            except Exception:
+                                same = False
+                                break
+                    if same:
+                        body = []
+                        for st in m.tree.body:
+                            if isinstance(st, ast.ImportFrom):
+                                st.names = [a for a in st.names if (a.asname or a.name) != k]
+                                if not st.names:
+                                    continue
+                            body.append(st)
+                        m.tree.body = body + [_copy.deepcopy(ref_cls[k])]
+                        ast.fix_missing_locations(m.tree)
+                        self.heal_log.append(f"{m.relpath}:{k}: class moved to {other.relpath} unchanged (methods equal in normal form); also analysed at its reviewed place")
+                        break
         for m in changed:
             tree = m.tree
             src = m.src
